@@ -193,6 +193,29 @@ def triples(ctx):
             nb = [(p[0] + dy, p[1] + dx) for dy, dx in ((0, 0), (0, 0), (1, 0), (-1, 0), (0, 1), (0, -1)) if 0 <= p[0] + dy < h and 0 <= p[1] + dx < w]
             s2 = (g2, r.choice(nb), o, held)
             origin = 'layout-change'
+        elif kk < 0.93:
+            # the agent faces a door and actuates; in s' that door may have changed status, the agent's pose may have changed too (a
+            # composition with teleport), and other doors stand around: the reward is about THE door that was in front in s
+            dirs = {0: (-1, 0), 1: (1, 0), 2: (0, -1), 3: (0, 1)}
+            fr = (p[0] + dirs[o][0], p[1] + dirs[o][1])
+            if not (0 <= fr[0] < h and 0 <= fr[1] < w):
+                o = next((d for d in range(4) if 0 <= p[0] + dirs[d][0] < h and 0 <= p[1] + dirs[d][1] < w), o)
+                fr = (p[0] + dirs[o][0], p[1] + dirs[o][1])
+            if 0 <= fr[0] < h and 0 <= fr[1] < w:
+                col = r.choice([1, 2, 4])
+                g = gen.set_cell(g, fr, (TY['Door'], r.randrange(3), col, None))
+                for _ in range(r.randint(0, 3)):
+                    q = (r.randrange(h), r.randrange(w))
+                    if q != fr and q != p:
+                        g = gen.set_cell(g, q, (TY['Door'], r.randrange(3), r.choice([1, 2, 4]), None))
+                g2 = gen.set_cell(g, fr, (TY['Door'], r.randrange(3), col, None)) if r.random() < 0.8 else g
+                p2, o2 = (p, o) if r.random() < 0.4 else gen.rand_pose(r, h, w)
+                s = (g, p, o, held)
+                s2 = (g2, p2, o2, held)
+                a = 6 if r.random() < 0.85 else a
+            else:
+                s2 = s
+            origin = 'door-change'
         elif kk < 0.95:
             # perturb one feature
             p2, o2 = gen.rand_pose(r, h, w)
@@ -220,6 +243,8 @@ def run(ctx):
             d = comp.rand_reward(r, types)
             if origin == 'layout-change' and i == 0:
                 d = {'name': 'getting_closer_shortest_path', 'params': [comp.rand_param(r), comp.rand_param(r)], 'ty': TY['Exit']}
+            if origin == 'door-change' and i == 0:
+                d = {'name': 'actuate_door', 'params': [comp.rand_param(r), comp.rand_param(r)]}
             if origin == 'hands-change' and i == 0:
                 d = {'name': 'pickndrop', 'params': [comp.rand_param(r), comp.rand_param(r)], 'ty': r.choice([TY['Key'], TY['Key'], TY['Wall'], TY['Door']])}
             f = comp.build_reward(d)
